@@ -199,7 +199,9 @@ func drawStream(d gen.D) (*fitmodel.Stream, int) {
 	o.UnknownFlds = false
 	o.DevFields = false
 	o.ExtraFileIds = false
-	o.Narrow = false
+	// a quarter of the streams declare component sources (and other fields)
+	// with narrower compatible base types, as C02 does
+	o.Narrow = d.Int(0, 3, "narrow") == 0
 	o.LongArrays = d.Chance(10, "longarr")
 	o.MaxFields = 6
 	o.MinRecs, o.MaxRecs = 1, 30
